@@ -306,14 +306,16 @@ def attribute(case, o, exe):
     return None
 
 
+def setup():
+    """model extraction and driver build (bin/check --setup calls this; main builds lazily through it)"""
+    return build_model(PROP, "ExtractC04.v", os.path.join(ROOT, "ocaml/c04"),
+                       ["theories/RegexProg.v", "theories/Regex.v", "theories/DataFilter.v"])[0]
+
+
 def main(tier, seed, replay=None):
     t0 = time.time()
-    proof = Proof(PROP)
-    model_ready = os.path.exists(os.path.join(ROOT, "coq/extract/ExtractC04.v"))
-    exe = None
-    if model_ready:
-        exe, _ = build_model(PROP, "ExtractC04.v", os.path.join(ROOT, "ocaml/c04"),
-                             ["theories/RegexProg.v", "theories/Regex.v", "theories/DataFilter.v"])
+    proof = Proof(PROP, tier=tier)
+    exe = setup()
     rng = random.Random(seed)
     ncase = 12000 if tier == "quick" else 300000
     cases = []
